@@ -90,6 +90,9 @@ func runC18(c *kit.Ctx) {
 		}
 	}
 	d.historyRestarts(pend)
+	if part == "" {
+		c18ConcurrentFlush(c, tmp) // edits concurrent with a flush (c18_conc.go)
+	}
 	if part != "hist" {
 		d.crashes()
 	}
